@@ -1,11 +1,13 @@
 mod mgr;
 mod store;
+mod world;
 
 fn main() {
     let args: Vec<String> = std::env::args().collect();
     let code = match args.get(1).map(|s| s.as_str()) {
         Some("store") => store::main(&args[2..]),
         Some("mgr") => mgr::main(&args[2..]),
+        Some("world") => world::main(&args[2..]),
         _ => {
             eprintln!("usage: vh store [--file] < ops");
             2
